@@ -44,15 +44,15 @@ INITIAL = [
     ((M.pair(TN, TN), (tk(A, 5, 1), tk(A, 5, 2))), (M.option(TN), ('Some', tk(A, 5, 9))), (M.lst(TN), (tk(A, 5, 1),))),
 ]
 
-DIP_BODIES = [('DROP',), ('SWAP',), ('PAIR',), ('UNPAIR',), ('SOME',), ('READ_TICKET',), ('JOIN_TICKETS',), ('TICKET',), ('DUP',), ('SPLIT_TICKET',)]
+DIP_BODIES = [('DROP',), ('SWAP',), ('PAIR',), ('UNPAIR',), ('READ_TICKET',), ('JOIN_TICKETS',), ('TICKET',), ('DUP',)]
 ALPHABET = ([('TICKET',), ('READ_TICKET',), ('SPLIT_TICKET',), ('JOIN_TICKETS',), ('PAIR',), ('UNPAIR',), ('CAR',), ('CDR',), ('SWAP',), ('DROP',),
-             ('DUP',), ('DUP', 2), ('DIG', 2), ('SOME',), ('IF_NONE', (), (('DROP',),)), ('IF_NONE', (('UNIT',), ('FAILWITH',)), ()),
+             ('DUP',), ('DUP', 2), ('SOME',), ('IF_NONE', (), (('DROP',),)), ('IF_NONE', (('UNIT',), ('FAILWITH',)), ()),
              ('NIL', TN), ('CONS',),
-             ('PUSH', M.NAT, 0), ('PUSH', M.NAT, 2), ('PUSH', M.NAT, 5), ('PUSH', M.STRING, 'x'),
-             ('PUSH', PNN, (1, 2)), ('PUSH', PNN, (0, 3)), ('PUSH', PNN, (2, 2)), ('PUSH', PNN, (3, 4))]
+             ('PUSH', M.NAT, 0), ('PUSH', M.NAT, 2), ('PUSH', M.NAT, 5),
+             ('PUSH', PNN, (1, 2)), ('PUSH', PNN, (0, 3)), ('PUSH', PNN, (3, 4))]
             + [('DIP', (b,)) for b in DIP_BODIES])
 
-MAX_DEPTH, MAX_TYPE = 5, 9
+MAX_DEPTH, MAX_TYPE = 4, 8
 
 
 def tsize(t):
@@ -85,27 +85,34 @@ def from_json(x):
     return x
 
 
-def explore(max_len):
-    """-> (cases [(state, instr)], states per depth).  BFS over reference states."""
+def _skey(S, seed):
+    return hashlib.sha256(f'{seed}|{S!r}'.encode()).digest()
+
+
+def explore(max_len, cap, seed=0):
+    """-> (cases [(state, instr, depth)], stats).  BFS over reference states; exhaustive while a level has at most `cap`
+    states, then a seed-determined subset of `cap` states of the level is expanded (states holding tickets first)."""
     seen = set(INITIAL)
     frontier = list(INITIAL)
     pairs, pair_seen = [], set()
-    levels = [len(frontier)]
+    levels, expanded = [len(frontier)], []
     for depth in range(max_len):
+        if len(frontier) > cap:
+            frontier.sort(key=lambda S: (not M.totals(S), _skey(S, seed)))
+            frontier = frontier[:cap]
+        expanded.append(len(frontier))
         nxt = []
         for S in frontier:
             for ins in ALPHABET:
+                key = (S, ins)
+                if key in pair_seen:
+                    continue
                 if is_dup_probe(ins, S):
-                    key = (S, ins)
-                    if key not in pair_seen:
-                        pair_seen.add(key)
-                        pairs.append((S, ins, depth + 1))
+                    pair_seen.add(key)
+                    pairs.append((S, ins, depth + 1))
                     continue
                 r = M.step(ins, S, SELF)
                 if r[0] == 'illtyped':
-                    continue
-                key = (S, ins)
-                if key in pair_seen:
                     continue
                 pair_seen.add(key)
                 pairs.append((S, ins, depth + 1))
@@ -114,7 +121,7 @@ def explore(max_len):
                     nxt.append(r[1])
         frontier = nxt
         levels.append(len(frontier))
-    return pairs, levels
+    return pairs, dict(states_reached_per_depth=levels, states_expanded_per_depth=expanded)
 
 
 # --------------------------------------------------------------------------------------------- real side
@@ -207,7 +214,8 @@ def flat(ins):
 
 def allowed_delta(ins, S):
     """Rule-based monitor, from the property statement: totals may grow only through TICKET (by the requested amount, for
-    (self, contents)) and shrink only where a value holding tickets is dropped (DROP / CAR / CDR).  -> dict of expected
+    (self, contents)) and shrink only where a value holding tickets is destroyed (DROP / CAR / CDR, a refused JOIN_TICKETS
+    or SPLIT_TICKET, which consume their operands).  -> dict of expected
     delta for the executed primitive steps, computed on the reference's intermediate stacks."""
     exp = {}
 
@@ -236,6 +244,16 @@ def allowed_delta(ins, S):
                 i = 1 if p == 'CAR' else 0        # the other component is dropped
                 for ticketer, cty, c, n in M.tickets_in(t[1 + i], v[i]):
                     add((ticketer, cty, c), -n)
+            elif p == 'JOIN_TICKETS':             # linear: a refused join consumes (destroys) both tickets
+                a, b = S[0][1]
+                if a[1] != b[1] or a[2] != b[2]:
+                    for ticketer, cty, c, n in M.tickets_in(*S[0]):
+                        add((ticketer, cty, c), -n)
+            elif p == 'SPLIT_TICKET':             # a refused split consumes the ticket
+                l, r_ = S[1][1]
+                if l == 0 or r_ == 0 or l + r_ != S[0][1][3]:
+                    for ticketer, cty, c, n in M.tickets_in(*S[0]):
+                        add((ticketer, cty, c), -n)
             r = M.step(x, S, SELF)
             if r[0] != 'ok':
                 raise StopIteration
@@ -278,7 +296,11 @@ def check_step(S, ins, st=None):
     try:
         after = read_stack(st)
     except Exception as e:  # noqa
-        out.append(_res(O_REF, False, f'{ctx}: result stack cannot be read: {type(e).__name__}: {e!s:.150}', f'{"/".join(flat(ins))} unreadable'))
+        tys = [type(it).as_micheline_expr() for it in st.items]
+        bare = "'prim': 'ticket'}" in repr(tys)
+        out.append(_res(O_REF, False, f'{ctx}: result stack cannot be read ({type(e).__name__}: {e!s:.80}); result types {tys!r:.300}'
+                        + ('; the ticket type lost its content type argument' if bare else ''),
+                        f'{"/".join(flat(ins))} ' + ('bare-ticket-type' if bare else 'unreadable')))
         return out, None
     prims = flat(ins)
     # conservation monitor
@@ -342,25 +364,31 @@ def eval_chunk(chunk):
 def enumerate_cases(tier, seed=0):
     thorough = tier == 'thorough'
     L = 7 if thorough else 5
-    pairs, levels = explore(L)
+    cap = 6000 if thorough else 1500
+    pairs, info = explore(L, cap, seed)
     cases = [dict(k='step', S=to_json(S), ins=to_json(ins), depth=d) for S, ins, d in pairs]
     # end-to-end walks on a persistent stack
     rng = random.Random(int(hashlib.sha256(f'c20-{seed}'.encode()).hexdigest()[:8], 16))
-    nwalks = 3000 if thorough else 600
+    nwalks = 4000 if thorough else 800
     walks = []
     for w in range(nwalks):
         S0 = INITIAL[w % len(INITIAL)]
         S, prog = S0, []
         for _ in range(L + 2):
-            cands = [i for i in ALPHABET if not is_dup_probe(i, S) and M.step(i, S, SELF)[0] == 'ok' and admissible(M.step(i, S, SELF)[1])]
-            # prefer ticket instructions so that walks do not drown in pushes
-            hot = [i for i in cands if i[0] in ('TICKET', 'READ_TICKET', 'SPLIT_TICKET', 'JOIN_TICKETS', 'IF_NONE', 'CONS', 'UNPAIR', 'DIP')]
+            cands = []
+            for i in ALPHABET:
+                if is_dup_probe(i, S):
+                    continue
+                r = M.step(i, S, SELF)
+                if r[0] == 'ok' and admissible(r[1]):
+                    cands.append((i, r[1]))
             if not cands:
                 break
-            ins = rng.choice(hot if hot and rng.random() < 0.6 else cands)
+            # prefer ticket instructions so that walks do not drown in pushes
+            hot = [c for c in cands if c[0][0] in ('TICKET', 'READ_TICKET', 'SPLIT_TICKET', 'JOIN_TICKETS', 'IF_NONE', 'CONS', 'UNPAIR', 'DIP')]
+            ins, S = rng.choice(hot if hot and rng.random() < 0.6 else cands)
             prog.append(ins)
-            S = M.step(ins, S, SELF)[1]
         walks.append(dict(k='walk', S=to_json(S0), prog=to_json(tuple(prog))))
     cases += walks
-    info = dict(max_len=L, states_per_depth=levels, step_cases=len(pairs), walks=len(walks))
+    info.update(max_len=L, frontier_cap=cap, step_cases=len(pairs), walks=len(walks), walk_len=L + 2)
     return [cases[i:i + 500] for i in range(0, len(cases), 500)], info
